@@ -35,13 +35,13 @@ def extra_obligations(index, tier):
         out.append((f"option-table/{'/'.join(flags)}->{kw['dest']}({kw['action']})", ok, str(calls), key))
     src = ast.unparse(fi.node)
     out.append(("parse_known_args(argv + implicit options, namespace)",
-                "parser.parse_known_args(argv + self.compiler.options, namespace)" in src, "", key))
-    out.append(("parser does not abbreviate or exit", "allow_abbrev=False" in src and "exit_on_error=False" in src, "", key))
+                "parser.parse_known_args(argv + self.compiler.options, namespace)" in src, "", key, "pattern"))
+    out.append(("parser does not abbreviate or exit", "allow_abbrev=False" in src and "exit_on_error=False" in src, "", key, "pattern"))
     out.append(("every configuration copies the three lists",
-                all(f"args.{x}.copy()" in src for x in ("defines", "include_paths", "include_files")), "", key))
+                all(f"args.{x}.copy()" in src for x in ("defines", "include_paths", "include_files")), "", key, "pattern"))
     ci = index.func("codebasin:CompileCommand.arguments")
     out.append(("command-string-form goes through shlex.split", "shlex.split(self._command)" in ast.unparse(ci.node), "",
-                "codebasin:CompileCommand.arguments"))
+                "codebasin:CompileCommand.arguments", "pattern"))
     return out
 
 
